@@ -365,7 +365,13 @@ class Exec:
                 if op == 'Return':
                     if self.top and self.contract is not None and self.contract.get('returns'):
                         env_r = self.spec_env(self.resolve_names(b, upto_idx=idx))
-                        evR = SpecEval(V, self.pkg, env_r, self.heap, old=self.top_entry_heap())
+                        rsv_ = []
+                        for o_, rdecl in zip(ins_['results'], self.fn['results']):
+                            try:
+                                rsv_.append(SV(self.term(o_), rdecl['type']))
+                            except OutOfSubset:
+                                rsv_.append(None)
+                        evR = SpecEval(V, self.pkg, env_r, self.heap, old=self.top_entry_heap(), results=rsv_)
                         for (lab, ast, txt) in self.contract['returns']:
                             try:
                                 self.oblige('return', evR.boolean(ast), ins_.get('pos', ''), label=lab or '0', text=txt)
@@ -374,7 +380,7 @@ class Exec:
                             except SpecError as e:
                                 # the clause names local variables that do not exist on this return path: it does
                                 # not apply here (it must apply to at least one return, checked at the end)
-                                if 'unknown identifier' not in str(e):
+                                if 'unknown identifier' not in str(e) and 'no such loop-carried variable' not in str(e):
                                     raise OutOfSubset('return clause in %s: %s' % (self.fnkey, e))
                     res = [self.term(o) if not isinstance(self.val(o), FuncVal) else z3.IntVal(0) for o in ins_['results']]
                     self.returns.append((self.reach, res, self.heap.copy()))
@@ -660,6 +666,9 @@ class Exec:
             c = self.const(ph['name'], ph['type'])
             self.env[ph['name']] = c
             self.assume_typed(c, ph['type'])
+            if self.top and ph.get('comment'):
+                V.loop_phi_vals = getattr(V, 'loop_phi_vals', {})
+                V.loop_phi_vals[(L['ordinal'], ph['comment'])] = SV(c, ph['type'])
         for (pn, rel) in auto:
             ev_ = entry_vals[pn]
             self.hyp(self.env[pn] >= ev_ if rel == '>=' else self.env[pn] <= ev_)
@@ -755,8 +764,14 @@ class Exec:
             for k, (lab, ast, txt) in enumerate(st.lc['step']):
                 try:
                     self.oblige('step', evS.boolean(ast), label='L%d.%s' % (st.ordinal, lab or k), text=txt)
+                    V.step_clause_sites = getattr(V, 'step_clause_sites', {})
+                    V.step_clause_sites[(st.ordinal, lab or k)] = V.step_clause_sites.get((st.ordinal, lab or k), 0) + 1
                 except SpecError as e:
-                    raise OutOfSubset('step clause of loop %d in %s: %s' % (st.ordinal, self.fnkey, e))
+                    # names a variable that does not exist on this path through the body: not applicable to this back edge
+                    if 'unknown identifier' not in str(e):
+                        raise OutOfSubset('step clause of loop %d in %s: %s' % (st.ordinal, self.fnkey, e))
+                    V.step_clause_skipped = getattr(V, 'step_clause_skipped', set())
+                    V.step_clause_skipped.add((st.ordinal, lab or k))
         if st.variant is not None:
             nv = evL.ev(st.lc['decreases'][0]).t
             self.oblige('decreases', z3.And(st.variant >= 0, nv < st.variant), label='L%d' % st.ordinal, text=st.lc['decreases'][1])
